@@ -32,5 +32,8 @@ Next == \/ /\ ~done /\ res' = (a - T * Q) \div P32 /\ done' = TRUE /\ UNCHANGED 
 \* exact division (the low word cancels), range and congruence
 MontContract == done => /\ res * P32 = a - T * Q
                         /\ res < Q /\ res > -Q
+\* the magnitude transfer function used by ImplBoundFns!Mont: |res| <= |a| / 2^32 + q/2 (+1 for rounding)
+MontMagnitude == done => /\ res * P32 - a <= P31 * Q /\ a - res * P32 <= P31 * Q
+                         /\ (a >= 0 => res * P32 <= a + P31 * Q) /\ (a <= 0 => -(res * P32) <= -a + P31 * Q)
 MontTooTight == done => (res < Q - 1 /\ res > -Q + 1)
 =======================================================================
